@@ -98,6 +98,27 @@ static std::pair<std::shared_ptr<smooth::TrustRegionStrategy>, std::shared_ptr<s
   }
 }
 
+// ---- hook H2: one record per iteration of minimize (evidence on acceptance paths + status contract)
+struct IterLog
+{
+  long iters = 0, by_take_step = 0, by_nonpositive_prediction = 0, by_zero_residual = 0, rejected = 0, status_events = 0;
+  bool last_status_set = false, status_then_continued = false;
+};
+static thread_local IterLog * g_iterlog = nullptr;
+static void iter_cb(const smooth::verif::MinimizeIter & e)
+{
+  if (!g_iterlog) return;
+  IterLog & l = *g_iterlog;
+  if (l.last_status_set) l.status_then_continued = true;  // an iteration ran after a status had been set
+  ++l.iters;
+  if (!e.stepped) ++l.rejected;
+  else if (e.take_step) ++l.by_take_step;
+  else if (e.r_n == 0) ++l.by_zero_residual;
+  else ++l.by_nonpositive_prediction;
+  if (e.status_set) ++l.status_events;
+  l.last_status_set = e.status_set;
+}
+
 template<DT D, typename F, typename... X>
 static Outcome run_min(F & f, const MinimizeOptions & mo, X &... x)
 {
@@ -135,7 +156,12 @@ static void monitor(Report & rep, const std::string & fam, const std::string & m
   mo.max_iter = opt.max_iter;
 
   Tuple xa = x0;
+  IterLog ilog;
+  g_iterlog                       = &ilog;
+  smooth::verif::minimize_iter_cb = iter_cb;
   Outcome o = std::apply([&](auto &... a) { return run_min<D>(f, mo, a...); }, xa);
+  smooth::verif::minimize_iter_cb = nullptr;
+  g_iterlog                       = nullptr;
 
   const std::vector<double> start = std::apply([&](const auto &... a) { return flat(a...); }, x0);
   const double cost0 = std::apply([&](const auto &... a) { return double(f(a...).norm()); }, x0);
@@ -152,6 +178,18 @@ static void monitor(Report & rep, const std::string & fam, const std::string & m
   rep.count("C09.accepted_steps", long(o.ev.size()) - 1);
   rep.count("C09.rejected_steps", long(o.res.iter) - (long(o.ev.size()) - 1));
 
+  // hook events: acceptance paths (evidence) and the status contract decided from the event stream:
+  // MaxIters is returned exactly when no iteration set a status, and no iteration runs after a status was set
+  rep.count("C09.hook.iterations", ilog.iters);
+  rep.count("C09.hook.accepted_by_take_step", ilog.by_take_step);
+  rep.count("C09.hook.accepted_by_nonpositive_prediction", ilog.by_nonpositive_prediction);
+  rep.count("C09.hook.accepted_by_zero_residual", ilog.by_zero_residual);
+  rep.count("C09.hook.rejected", ilog.rejected);
+  rep.require(site + ".hook.iterations_match_result", st, ilog.iters == long(o.res.iter), det);
+  rep.require(site + ".hook.maxiters_iff_no_status_event", st,
+    (o.res.status == SolveResult::Status::MaxIters) == (ilog.status_events == 0) && !ilog.status_then_continued, det);
+  rep.require(site + ".hook.accepted_steps_match_callbacks", st,
+    ilog.by_take_step + ilog.by_nonpositive_prediction + ilog.by_zero_residual == long(o.ev.size()) - 1, det);
   // callback history: initial point first
   rep.require(site + ".callback_first_is_start", st, !o.ev.empty() && o.ev[0].args == start, det);
   if (o.ev.empty()) return;
